@@ -16,6 +16,7 @@ type arrayDecoder struct {
 	structName   string
 	fieldName    string
 	zeroValue    unsafe.Pointer
+	zeroValuePtr unsafe.Pointer
 }
 
 func newArrayDecoder(dec Decoder, elemType *runtime.Type, alen int, structName, fieldName string) *arrayDecoder {
@@ -30,6 +31,7 @@ func newArrayDecoder(dec Decoder, elemType *runtime.Type, alen int, structName, 
 		structName:   structName,
 		fieldName:    fieldName,
 		zeroValue:    zeroValue,
+		zeroValuePtr: zeroValuePtr,
 	}
 }
 
@@ -52,7 +54,7 @@ func (d *arrayDecoder) DecodeStream(s *Stream, depth int64, p unsafe.Pointer) er
 			s.cursor++
 			if s.skipWhiteSpace() == ']' {
 				for idx < d.alen {
-					*(*unsafe.Pointer)(unsafe.Pointer(uintptr(p) + uintptr(idx)*d.size)) = d.zeroValue
+					typedmemmove(d.elemType, unsafe.Pointer(uintptr(p)+uintptr(idx)*d.size), d.zeroValuePtr)
 					idx++
 				}
 				s.cursor++
@@ -72,7 +74,7 @@ func (d *arrayDecoder) DecodeStream(s *Stream, depth int64, p unsafe.Pointer) er
 				switch s.skipWhiteSpace() {
 				case ']':
 					for idx < d.alen {
-						*(*unsafe.Pointer)(unsafe.Pointer(uintptr(p) + uintptr(idx)*d.size)) = d.zeroValue
+						typedmemmove(d.elemType, unsafe.Pointer(uintptr(p)+uintptr(idx)*d.size), d.zeroValuePtr)
 						idx++
 					}
 					s.cursor++
@@ -128,7 +130,7 @@ func (d *arrayDecoder) Decode(ctx *RuntimeContext, cursor, depth int64, p unsafe
 			cursor = skipWhiteSpace(buf, cursor)
 			if buf[cursor] == ']' {
 				for idx < d.alen {
-					*(*unsafe.Pointer)(unsafe.Pointer(uintptr(p) + uintptr(idx)*d.size)) = d.zeroValue
+					typedmemmove(d.elemType, unsafe.Pointer(uintptr(p)+uintptr(idx)*d.size), d.zeroValuePtr)
 					idx++
 				}
 				cursor++
@@ -153,7 +155,7 @@ func (d *arrayDecoder) Decode(ctx *RuntimeContext, cursor, depth int64, p unsafe
 				switch buf[cursor] {
 				case ']':
 					for idx < d.alen {
-						*(*unsafe.Pointer)(unsafe.Pointer(uintptr(p) + uintptr(idx)*d.size)) = d.zeroValue
+						typedmemmove(d.elemType, unsafe.Pointer(uintptr(p)+uintptr(idx)*d.size), d.zeroValuePtr)
 						idx++
 					}
 					cursor++
